@@ -3,7 +3,8 @@
 
    Vocabulary: `item` = instance tree (IComp id fragment, child instances standing where their placeholders
    are); `page_render` / `post_render` = the deferred-render queue of component_post_render with its two
-   process-global tables; `inline` / `inlT` = recursive inlining (tokens / tree); `outputs c A its` = the
+   process-global tables (`IRoot` = an instance rendered by a re-entrant root run on the same tables; `fresh I tb` =
+   the tables mention no id of I; `teq t t'` = every key looks up the same in t and t'); `inline` / `inlT` = recursive inlining (tokens / tree); `outputs c A its` = the
    output(s) of the instance(s) with id c; `carrying c doc` = number of elements of doc with attribute
    data-djc-id-c; `top_elems out` = number of top-level elements of out. *)
 From DJC Require Import Lib.Base PostRender.Model PostRender.Proofs PostRender.Placeholder.
@@ -12,7 +13,8 @@ Import Coq.Strings.String.StringSyntax.
 Local Delimit Scope string_scope with string.
 
 (* The queue computes the inlining: for EVERY instance forest with pairwise distinct ids - any shape, any
-   nesting depth, any number of root elements, components as roots - rendering the page from clean tables
+   nesting depth, any number of root elements, components as roots, re-entrant root runs (IRoot) anywhere inside
+   deferred instances and inside each other - rendering the page from clean tables
    never fails (no RuntimeError "Parent ID is None", no KeyError on the renderer cache), terminates within
    the 2-steps-per-instance fuel that page_render hands to each root run, returns exactly the inlined
    document (children in place, in order - the composition C01 relies on), and leaves both global tables empty. *)
@@ -21,14 +23,17 @@ Theorem post_render_is_inlining : forall its,
 Proof. exact post_render_is_inlining_lemma. Qed.
 Print Assumptions post_render_is_inlining.
 
-(* One root run, started with ARBITRARY contents of the process-global tables (left-overs of other renders):
-   exactly 2 loop iterations per instance suffice (linear, no recursion: `run` is a loop over a worklist),
-   the result is the inlining, and the tables come back with precisely this render's ids deleted and every
-   other entry untouched.  Only requirement on the tables: no stale attribute entry for the root id itself. *)
-Theorem root_run_linear_and_clean : forall tb c body,
-  NoDup (c :: ids body) -> alookup c (snd tb) = None ->
-  exists tb', post_render (2 * ninst [IComp c body]) tb c body = Done (inline [] [IComp c body], tb') /\
-              same_out (c :: ids body) (fst tb) (fst tb') /\ same_out (c :: ids body) (snd tb) (snd tb').
+(* One root run - the outermost one or one that starts RE-ENTRANTLY while another run's queue is being processed
+   (a component rendered with a context that carries no parent component) - started with ARBITRARY contents of the
+   two process-global tables, provided they mention none of this run's own (fresh) ids: renderers registered by
+   the interrupted run, attribute entries waiting for the interrupted run's later placeholders, left-overs of other
+   renders.  Any fuel >= 2 iterations per instance suffices (linear, no recursion: `run` is a loop over a worklist;
+   re-entrant runs inside it draw on the same budget), the result is the inlining, and BOTH TABLES COME BACK AS THEY
+   WERE FOUND: every key - in particular every entry of the interrupted run - looks up exactly what it did before. *)
+Theorem root_run_linear_and_clean : forall F tb c body,
+  NoDup (c :: ids body) -> fresh (c :: ids body) tb -> (2 * ninst [IRoot c body] <= F)%nat ->
+  exists tb', post_render F tb c body = Done (inline [] [IRoot c body], tb') /\
+              teq (fst tb) (fst tb') /\ teq (snd tb) (snd tb').
 Proof. exact root_run_lemma. Qed.
 Print Assumptions root_run_linear_and_clean.
 
@@ -102,21 +107,26 @@ Proof. vm_compute. split; reflexivity. Qed.
 Example ex_short_id_not_found : match_placeholder_at (tagged_placeholder (s2n "a0001"%string) []) = None.
 Proof. vm_compute. reflexivity. Qed.
 
-(* library: 1 = <div>{slot}</div> text {comp 2}   2 = <span/><p>{dynamic comp 3}</p>   3 = text-only
-   page: <section>{% for 2 times %}{comp 1}{comp 2 /}{/comp}{% endfor %}</section> *)
-Definition ex_prog : prog :=
-  {| lib := [(1%N, [TElem 1%N [TSlot [TText]]; TText; TComp 2%N false []]);
+(* library: 1 = <div>{slot 0}</div> text {comp 2}   2 = <span/><p>{dynamic comp 3}</p>   3 = text-only
+   page: <section>{% for 2 times %}{comp 1}{fill 0}{comp 2 /}{endfill}{/comp}{% endfor %}</section> *)
+Definition ex_prog (isolated : bool) : prog :=
+  {| lib := [(1%N, [TElem 1%N [TSlot 0%N [TText]]; TText; TComp 2%N false []]);
              (2%N, [TElem 2%N []; TElem 4%N [TComp 3%N true []]]);
              (3%N, [TText])];
-     page := [TElem 3%N [TRep 2 [TComp 1%N false [TComp 2%N false []]]]] |}.
+     page := [TElem 3%N [TRep 2 [TComp 1%N false [(0%N, [TComp 2%N false []])]]]];
+     iso := isolated |}.
 
-Example ex_expands : exists its, expand_page 20 ex_prog = XOk its 14%N /\ ninst its = 14%nat.
-Proof. eexists. vm_compute. split; reflexivity. Qed.
+Example ex_expands : exists its, expand_page 20 (ex_prog false) = XOk its 14%N /\ ninst its = 14%nat /\ nreent its = 0%nat.
+Proof. eexists. vm_compute. repeat split; reflexivity. Qed.
+(* the same page in "isolated" mode: the component in the page-level fill is rendered without a parent - a
+   re-entrant root run inside the render of instance 0 / 7 *)
+Example ex_expands_isolated : exists its, expand_page 20 (ex_prog true) = XOk its 14%N /\ ninst its = 14%nat /\ nreent its = 2%nat.
+Proof. eexists. vm_compute. repeat split; reflexivity. Qed.
 
 (* instance 4 (component 2 as the last root of instance 0 = component 1): its two root elements carry 0 and 4,
    the <p> below carries neither; two elements of the page carry id 4 *)
 Example ex_shared_root :
-  match expand_page 20 ex_prog with
+  match expand_page 20 (ex_prog false) with
   | XOk its _ =>
       outputs 4%N [] its = [[HElem 2%N [0%N; 4%N] []; HElem 4%N [0%N; 4%N] [HText]]]
       /\ carrying 4%N (inlT [] its) = 2%nat /\ carrying 0%N (inlT [] its) = 3%nat
@@ -124,10 +134,24 @@ Example ex_shared_root :
   end.
 Proof. vm_compute. repeat split. Qed.
 
-(* the hypotheses of root_run_linear_and_clean are satisfiable with dirty tables, and the stale entries survive *)
+(* the hypotheses of root_run_linear_and_clean are satisfiable with dirty tables, and the foreign entries survive *)
 Example ex_dirty_tables :
+  fresh [1%N; 2%N] ([(7%N, [IText])], [(8%N, [9%N])]) /\
   post_render 4 ([(7%N, [IText])], [(8%N, [9%N])]) 1%N [IElem 1%N [IComp 2%N [IElem 2%N []]]]
   = Done ([Open 1%N [1%N]; Open 2%N [2%N]; Close 2%N; Close 1%N], ([(7%N, [IText])], [(8%N, [9%N])])).
+Proof. split; [intros k [<-|[<-|[]]]; split; reflexivity | vm_compute; reflexivity]. Qed.
+
+(* the layout pattern: instance 1 = [ panel 2 = <section>{leaf 3 rendered by a RE-ENTRANT root run}</section> ; footer 4 ].
+   While run 3 starts and ends, the attribute entry (4 -> [1]) of the interrupted run is waiting in child_component_attrs;
+   it is still there afterwards: the footer's element carries both ids *)
+Example ex_reentrant_pending :
+  page_render ([], []) [IComp 1%N [IComp 2%N [IElem 3%N [IRoot 3%N [IElem 2%N []]]]; IComp 4%N [IElem 5%N []]]]
+  = Done ([Open 3%N [1%N; 2%N]; Open 2%N [3%N]; Close 2%N; Close 3%N; Open 5%N [1%N; 4%N]; Close 5%N], ([], [])).
+Proof. vm_compute. reflexivity. Qed.
+(* ... and a root run nested at the top level of a deferred instance hands the enclosing ids to its elements *)
+Example ex_reentrant_root_level :
+  page_render ([], []) [IComp 1%N [IComp 2%N [IRoot 3%N [IElem 2%N []]]; IComp 4%N [IElem 5%N []]]]
+  = Done ([Open 2%N [1%N; 2%N; 3%N]; Close 2%N; Open 5%N [1%N; 4%N]; Close 5%N], ([], [])).
 Proof. vm_compute. reflexivity. Qed.
 
 (* a chain of three: the element carries all three ids *)
